@@ -20,27 +20,28 @@
 //  * Success (SYMM): values ascending, |theta_k-lambda_k| <= 2 tol against the k lowest
 //    eigenvalues of SelfAdjointEigenSolver, |v|=1, |vi.vj| small, |A v-theta v| <= tol.
 //  * strictly diagonally dominant matrix (any family): Success is required.
-//  * NoConvergence: at least one root is flagged (zero vector); every root that is NOT
-//    flagged must be a converged one (unit norm, residual <= tol).
+//  * NoConvergence: every root that is NOT flagged (zero vector, value 0) must be a
+//    converged one (unit norm, residual <= tol).
 //  * HAM: on Success the returned values (as a multiset) are the lowest positive
 //    eigenvalues of H (reference: sqrt(eig(L^T (A-B) L)), A+B = L L^T).
 //  * an exception thrown by solve() is a non-success outcome (allowed, except where
 //    success is required).
 //
-// Reachable-subspace classification (finding #20).  In exact arithmetic the solver never
-// leaves W = the smallest subspace that contains its start vectors (unit vectors on the
-// lowest diagonal entries) and is invariant under A and under the spectral projectors P_d
-// of diag(A) (the diagonal preconditioner -r/(D-lambda), with non-finite entries zeroed,
-// is a function of D).  A "success, but not the lowest roots" failure is attributed to the
-// single known class `root-outside-reachable-subspace` only if
-//   (1) W was computed exactly (rational arithmetic, integer matrices) or as a structural
-//       superset (connected components of the non-zero pattern; then the claim still holds),
-//   (2) the best any W-confined method can do provably fails the value test: dim W < neigen
-//       or mu_k(A|W) - lambda_k(A) > 2 tol (+margin) for some k <= neigen (Cauchy interlacing
-//       gives theta_k >= mu_k), and
-//   (3) the returned values ARE the lowest roots of A|W (the solver solved the restricted
-//       problem correctly).
-// Everything else is a violation.
+// Classification of "Success with genuine eigenpairs that are not the lowest ones" (see notes/C09.md).
+// (K1, finding #20) In exact arithmetic the solver never leaves W = the smallest subspace that contains its start
+// vectors (unit vectors on the lowest diagonal entries) and is invariant under A and under the spectral projectors
+// P_d of diag(A) (the diagonal preconditioner -r/(D-lambda), with non-finite entries zeroed, is a function of D).
+// A failure is attributed to `root-outside-reachable-subspace` only if
+//   (1) W was computed exactly (rational arithmetic, integer matrices) or as a structural superset (connected
+//       components of the non-zero pattern; then the claim still holds),
+//   (2) the best any W-confined method can do provably fails the value test: dim W < neigen or
+//       mu_k(A|W) - lambda_k(A) > 2 tol (+margin) for some k <= neigen (Cauchy interlacing: theta_k >= mu_k), and
+//   (3) the returned values ARE the lowest roots of A|W (the restricted problem was solved correctly).
+// (K2/K3) `converged-on-start-space-not-lowest` / `converged-on-explored-subspace-not-lowest`: certified from the
+// trajectory recorded by the operator wrapper: prescribed start vectors, 1..size_update new vectors per iteration,
+// thick restarts replayed, returned vectors inside the final search space and returned values = its lowest
+// (harmonic) Ritz values, i.e. the solver stopped legitimately on what it had explored.
+// Everything else is a violation (`success-not-lowest*`).
 #include <omp.h>
 
 #include <Eigen/Dense>
@@ -575,40 +576,41 @@ static bsx::Outcome run_case(const Case &c, bool verbose = false) {
   // the search space can grow beyond the dimension of the matrix before a restart shrinks it
   const bool p_over = std::max<Index>(mss_eff, 2 * k + su) + su > n;
   const std::vector<Index> start = start_indices(H.diagonal(), ham, 2 * k);
-  // coupling block C = H[rest,start]: the first correction vectors are F_j C u_j (F_j diagonal), so a rank of C below the
-  // number of correction vectors makes them (numerically) linearly dependent
-  std::vector<char> inS(n, 0);
-  for (Index s : start) inS[s] = 1;
-  Index rankC = 0;
-  {
-    MatrixXd C(n - Index(start.size()), Index(start.size()));
-    Index row = 0;
-    for (Index i = 0; i < n; i++) {
-      if (inS[i]) continue;
-      for (size_t j = 0; j < start.size(); j++) C(row, Index(j)) = H(i, start[j]);
-      row++;
-    }
-    if (C.rows() > 0 && C.cwiseAbs().maxCoeff() > 0) {
-      Eigen::JacobiSVD<MatrixXd> svd(C);
-      for (Index i = 0; i < svd.singularValues().size(); i++) rankC += svd.singularValues()(i) > 1e-10 * svd.singularValues()(0);
-    }
-  }
-  const bool p_lowrank = rankC < su;
-  // a start unit vector that is not coupled to the other start vectors is itself a Ritz vector whose Ritz value equals
-  // its diagonal entry exactly: D_i - lambda = 0 in the preconditioner
-  bool p_isolated = false;
-  for (Index s : start) {
-    bool iso = true;
-    for (Index t : start) iso = iso && (t == s || (H(s, t) == 0.0 && H(t, s) == 0.0));
-    p_isolated = p_isolated || iso;
-  }
-  const bool p_eqd = has_equal_diagonal_entries(H);
-  bool p_tridiag = !ham;  // banded: every iteration can only add the few rows next to the current support
-  for (Index i = 0; p_tridiag && i < n; i++)
-    for (Index j = 0; j < n; j++)
-      if (std::abs(i - j) > 1 && H(i, j) != 0.0) { p_tridiag = false; break; }
+  // narrow input classes for failure keys (only evaluated when a case fails)
   auto input_class = [&]() -> std::string {
     if (p_over) return "-search-space-may-exceed-dimension";
+    // coupling block C = H[rest,start]: the first correction vectors are F_j C u_j (F_j diagonal), so a rank of C below the
+    // number of correction vectors makes them (numerically) linearly dependent
+    std::vector<char> inS(n, 0);
+    for (Index s : start) inS[s] = 1;
+    Index rankC = 0;
+    {
+      MatrixXd C(n - Index(start.size()), Index(start.size()));
+      Index row = 0;
+      for (Index i = 0; i < n; i++) {
+        if (inS[i]) continue;
+        for (size_t j = 0; j < start.size(); j++) C(row, Index(j)) = H(i, start[j]);
+        row++;
+      }
+      if (C.rows() > 0 && C.cwiseAbs().maxCoeff() > 0) {
+        Eigen::JacobiSVD<MatrixXd> svd(C);
+        for (Index i = 0; i < svd.singularValues().size(); i++) rankC += svd.singularValues()(i) > 1e-10 * svd.singularValues()(0);
+      }
+    }
+    const bool p_lowrank = rankC < su;
+    // a start unit vector that is not coupled to the other start vectors is itself a Ritz vector whose Ritz value equals
+    // its diagonal entry exactly: D_i - lambda = 0 in the preconditioner
+    bool p_isolated = false;
+    for (Index s : start) {
+      bool iso = true;
+      for (Index t : start) iso = iso && (t == s || (H(s, t) == 0.0 && H(t, s) == 0.0));
+      p_isolated = p_isolated || iso;
+    }
+    const bool p_eqd = has_equal_diagonal_entries(H);
+    bool p_tridiag = !ham;  // banded: every iteration can only add the few rows next to the current support
+    for (Index i = 0; p_tridiag && i < n; i++)
+      for (Index j = 0; j < n; j++)
+        if (std::abs(i - j) > 1 && H(i, j) != 0.0) { p_tridiag = false; break; }
     if (p_lowrank) return "-coupling-rank-below-update-size";
     if (p_tridiag) return "-tridiagonal-matrix";
     if (p_isolated && c.corr == 1) return "-olsen-ritz-value-equals-diagonal-entry";
@@ -733,8 +735,7 @@ static bsx::Outcome run_case(const Case &c, bool verbose = false) {
                         "status NoConvergence but root " + std::to_string(j) + " is returned unflagged with |v|=" + bsx::fmt(nrm(j)) +
                             " residual " + bsx::fmt(resn(j)) + " > tol " + bsx::fmt(tol));
     }
-    if (nflag == 0)
-      return failwith("noconv-no-root-flagged" + input_class(), "status NoConvergence but every root is returned as converged");
+    // (a NoConvergence status with no flagged root would still "say so through its status": not demanded)
     return finish_ok(std::to_string(nflag) + " of " + std::to_string(k) + " roots flagged");
   }
 
@@ -939,50 +940,59 @@ static std::vector<int> neigens(int n, bool ham) {
   }
   return r;
 }
-// option index -> (corr, upd, tol, tight); optset 0 = all 48, 1 = reduced 4 (quick lattice)
-static int nopts(int optset) { return optset == 0 ? 48 : 4; }
+// option index -> (corr, upd, tol, tight); optset 0 = all 48, 1 = 2 representative ones, 2 = the other 46
+static void setopt48(Case &c, int o) {
+  c.corr = o % 2; o /= 2;
+  c.upd = o % 3; o /= 3;
+  c.tol = o % 4; o /= 4;
+  c.tight = o % 2;
+}
+static int opt48_of_reduced(int o) {  // (DPR,safe,normal,default search space) and (OLSEN,max,lapack,3*neigen)
+  int corr = o % 2, tight = corr, upd = tight ? 2 : 1, tol = corr ? 3 : 1;
+  return corr + 2 * (upd + 3 * (tol + 4 * tight));
+}
+static const int NRED = 2;
+static int nopts(int optset) { return optset == 0 ? 48 : optset == 1 ? NRED : 48 - NRED; }
 static void setopt(Case &c, int optset, int o) {
-  if (optset == 0) {
-    c.corr = o % 2; o /= 2;
-    c.upd = o % 3; o /= 3;
-    c.tol = o % 4; o /= 4;
-    c.tight = o % 2;
-  } else {
-    c.corr = o % 2; o /= 2;
-    c.tight = o % 2;
-    c.upd = c.tight ? 2 : 1;
-    c.tol = c.corr ? 3 : 1;
+  if (optset == 0) return setopt48(c, o);
+  if (optset == 1) return setopt48(c, opt48_of_reduced(o));
+  static std::vector<int> others;
+  if (others.empty()) {
+    std::set<int> red;
+    for (int r = 0; r < NRED; r++) red.insert(opt48_of_reduced(r));
+    for (int f = 0; f < 48; f++)
+      if (!red.count(f)) others.push_back(f);
   }
+  return setopt48(c, others.at(size_t(o)));
 }
 
+// Order: the small complete lattices with a representative option set first (simplest counterexamples first), then the
+// structured families by size, then the remaining option combinations of the lattices (the bulk of the cases).
 static std::vector<Block> blocks(const std::string &tier) {
   bool thorough = tier == "thorough";
   std::vector<Block> bl;
-  // c: complete 4x4 lattice
-  {
-    int os = thorough ? 0 : 1;
-    long no = nopts(os);
-    bl.push_back({"c:lattice4x4", NLATC * no, [=](long i) {
+  auto lattice_c = [&](int os) {
+    bl.push_back({"c:lattice4x4/opts" + std::to_string(os), NLATC * nopts(os), [=](long i) {
                     Case c; c.fam = 'c'; c.n = 4; c.k = 1;
                     c.p[0] = i % NLATC;
                     setopt(c, os, int(i / NLATC));
                     return c; }});
-  }
-  // d0: complete m=2 BSE lattice, all options; d1: reduced m=3 lattice
+  };
+  auto lattice_d1 = [&](int os) {
+    bl.push_back({"d:lattice-m3/opts" + std::to_string(os), NLATD1 * nopts(os), [=](long i) {
+                    Case c; c.fam = 'd'; c.n = 6; c.k = 1; c.p[0] = 1;
+                    c.p[1] = i % NLATD1;
+                    setopt(c, os, int(i / NLATD1));
+                    return c; }});
+  };
+  lattice_c(1);
+  // complete m=2 BSE lattice, all options
   bl.push_back({"d:lattice-m2", NLATD0 * 48, [=](long i) {
                   Case c; c.fam = 'd'; c.n = 4; c.k = 1; c.p[0] = 0;
                   c.p[1] = i % NLATD0;
                   setopt(c, 0, int(i / NLATD0));
                   return c; }});
-  {
-    int os = thorough ? 0 : 1;
-    long no = nopts(os);
-    bl.push_back({"d:lattice-m3", NLATD1 * no, [=](long i) {
-                    Case c; c.fam = 'd'; c.n = 6; c.k = 1; c.p[0] = 1;
-                    c.p[1] = i % NLATD1;
-                    setopt(c, os, int(i / NLATD1));
-                    return c; }});
-  }
+  lattice_d1(1);
   std::vector<int> sizes = thorough ? std::vector<int>{8, 16, 40, 120} : std::vector<int>{8, 16, 40};
   for (int n : sizes) {
     std::vector<int> ks = neigens(n, false);
@@ -1006,22 +1016,25 @@ static std::vector<Block> blocks(const std::string &tier) {
                     c.p[1] = i % 2; i /= 2;
                     c.p[0] = i % 5;
                     return c; }});
+    // d: dense BSE blocks, n = 2m
+    if (n >= 16) {
+      std::vector<int> hks = neigens(n, true);
+      long nhk = long(hks.size());
+      long npat = n >= 120 ? 1 : NPAT, ndiag = n >= 120 ? 2 : 4;
+      bl.push_back({"d:dense-n" + std::to_string(n), ndiag * npat * 3 * nhk * 48 * 2, [=](long i) {
+                      Case c; c.fam = 'd'; c.n = n; c.p[0] = 2;
+                      c.mf = int(i % 2); i /= 2;
+                      setopt(c, 0, int(i % 48)); i /= 48;
+                      c.k = hks[i % nhk]; i /= nhk;
+                      c.p[3] = i % 3; i /= 3;
+                      c.p[2] = i % npat; i /= npat;
+                      c.p[1] = i % ndiag;
+                      return c; }});
+    }
   }
-  // d2: dense BSE blocks, n = 2m
-  std::vector<int> hsizes = thorough ? std::vector<int>{16, 40, 120} : std::vector<int>{16, 40};
-  for (int n : hsizes) {
-    std::vector<int> ks = neigens(n, true);
-    long nk = long(ks.size());
-    long npat = n >= 120 ? 1 : NPAT, ndiag = n >= 120 ? 2 : 4;
-    bl.push_back({"d:dense-n" + std::to_string(n), ndiag * npat * 3 * nk * 48 * 2, [=](long i) {
-                    Case c; c.fam = 'd'; c.n = n; c.p[0] = 2;
-                    c.mf = int(i % 2); i /= 2;
-                    setopt(c, 0, int(i % 48)); i /= 48;
-                    c.k = ks[i % nk]; i /= nk;
-                    c.p[3] = i % 3; i /= 3;
-                    c.p[2] = i % npat; i /= npat;
-                    c.p[1] = i % ndiag;
-                    return c; }});
+  if (thorough) {
+    lattice_d1(2);
+    lattice_c(2);
   }
   return bl;
 }
@@ -1052,16 +1065,17 @@ int main(int argc, char **argv) {
   R.tier = a.tier;
   R.max_samples = 24;
   if (a.kv.count("maxfail")) R.max_fail_per_key = size_t(atol(a.kv["maxfail"].c_str()));  // development aid
-  R.deadline_s = a.tier == "thorough" ? 540 : 150;
+  R.deadline_s = a.tier == "thorough" ? 560 : 150;
   R.rule =
       "every case = (matrix, correction DPR|OLSEN, update min|safe|max, tolerance loose|normal|strict|lapack, max search space "
       "default|3*neigen, neigen, dense|matrix-free operator) run through the real DavidsonSolver::solve and compared with "
       "Eigen::SelfAdjointEigenSolver (SYMM) or the Cholesky-reduced BSE reference (HAM). Families: a = Q diag(s) Q^T with a fixed dense "
-      "or near-identity orthogonal Q, n in {8,16,40,120(thorough)}, 5 spectra; b = strictly diagonally dominant (5 diagonals x 3 "
-      "patterns x eps {0.01,0.1,0.5}); c = ALL symmetric 4x4 matrices with diagonal in {0..3} and off-diagonals in {-1,0,1}; d = BSE "
+      "or near-identity orthogonal Q, n in {8,16,40,120(thorough)}, 5 spectra; b = strictly diagonally dominant (5 diagonals x 4 "
+      "off-diagonal patterns {generic dense, rank<=3 signs, tridiagonal, all-ones} x eps {0.01,0.1,0.5}); c = ALL symmetric 4x4 matrices with diagonal in {0..3} and off-diagonals in {-1,0,1}; d = BSE "
       "block form (all 2x2-block integer matrices, a reduced 3x3-block lattice, dense blocks n in {16,40,120(thorough)}), only "
       "members with A+B, A-B positive definite. A distinct outcome class is (family, status Success|NoConvergence|threw, iteration "
-      "count, number of flagged roots, reachable-subspace flag, diagonally-dominant flag).";
+      "count, number of flagged roots, reachable-subspace flag, diagonally-dominant flag). quick: lattices with 2 representative "
+      "option combinations (m=2 BSE lattice: all 48), thorough: all 48.";
   R.assumptions = {
       "Eigen::SelfAdjointEigenSolver / LLT / EigenSolver are trusted as reference",
       "an exception out of solve() counts as an honest non-success (the statement does not mention exceptions)",
